@@ -226,6 +226,38 @@ let explore k nn (scripts : (int * call) list) allowed_stops max_states =
   Printf.printf "explored %d states%s\n" !count (if !count >= max_states then " (state limit reached)" else "");
   Hashtbl.iter (fun s () -> print_string ("!FG " ^ s ^ "\n")) viol
 
+(* ---- happens-before (vector clocks driven by the memory orders of the current source): random schedules of the
+   fine-grained model; at every callback of node n by thread t: for every agent X that left waiting(n) at its local
+   time k, t's clock knows X at least up to k ---- *)
+let hbcheck k nn (scripts : (int * call) list) nsched seed =
+  let script_of t = List.filter_map (fun (x, c) -> if x = t then Some c else None) scripts in
+  let rng = Random.State.make [| seed |] in
+  let total = List.length scripts in
+  let viol = ref 0 and cbs = ref 0 and stops = ref 0 in
+  for _ = 1 to nsched do
+    let h = ref (h0 (fun t -> script_of (int_of_nat t))) in
+    (try
+       for _ = 1 to 60 * (total + 1) do
+         let t = Random.State.int rng k in
+         let pre = !h in
+         let (h', evs) = gen_h_step (nat_of_int t) pre in
+         List.iter (function
+             | WCb (n, t') ->
+               incr cbs;
+               for x = 0 to k - 1 do
+                 match pre.hleft n (nat_of_int x) with
+                 | Some kx -> if int_of_nat kx > int_of_nat (h'.hk.vc t' (nat_of_int x)) then incr viol
+                 | None -> ()
+               done
+             | _ -> ()) evs;
+         h := h';
+         if h'.hf.fstop <> None then (incr stops; raise Exit)
+       done
+     with Exit -> ())
+  done;
+  Printf.printf "hb schedules %d callbacks %d\n" nsched !cbs;
+  if !viol > 0 then Printf.printf "!HB %d callback(s) not ordered after an agent's accesses before its quiescent state\n" !viol
+
 let body lines =
   match lines with
   | [] -> ()
@@ -234,6 +266,15 @@ let body lines =
      | "cfg" :: k :: nn :: rest ->
        let k = min 8 (max 1 (int_of_string k)) and nn = min 16 (max 1 (int_of_string nn)) in
        if rest = ["stress"] then print_string "stress done\n"
+       else if (match rest with "hb" :: _ -> true | _ -> false) then begin
+         let parse l = match words l with
+           | ["on"; t] -> Some (int_of_string t, COnline) | ["off"; t] -> Some (int_of_string t, COffline)
+           | ["qs"; t] -> Some (int_of_string t, CQsCall) | ["run"; t] -> Some (int_of_string t, CRun)
+           | ["qb"; t] -> Some (int_of_string t, CQBarrier)
+           | ["ab"; t; n] -> Some (int_of_string t, CAwait (nat_of_int (int_of_string n))) | _ -> None in
+         let ns = (match rest with [_; a] -> int_of_string a | _ -> 2000) in
+         hbcheck k nn (List.filter_map parse ops) ns 12345
+       end
        else if rest = ["explore"] then begin
          let parse l = match words l with
            | ["on"; t] -> Some (int_of_string t, COnline) | ["off"; t] -> Some (int_of_string t, COffline)
